@@ -1,6 +1,7 @@
 package props
 
 import (
+	"go/token"
 	"fmt"
 	"go/types"
 	"sort"
@@ -60,7 +61,7 @@ func checkC11(c *core.Ctx, r *core.Report) {
 		"(1) PAIR — every sync.Mutex/RWMutex acquisition in the ingest/metadata/query packages is released on every exit (direct, deferred, or deferred closure), no unlock of a lock that is not held, no second acquisition of a lock that is certainly held (including recursive read locks); " +
 		"(2) LOCKORDER — the held→acquired relation over lock classes (package-level mutexes and (type).field mutexes), built from per-instruction may-held sets and transitive may-acquire summaries over static calls, has no cycle among distinct classes and no self-edge on a package-level lock; " +
 		"(3) HELD — every access (update, delete, lookup, range) of the shared tables allSegStores, AllUnrotatedSegmentInfo, RecentlyRotatedSegmentFiles, globalMetadata's maps/slices, allVirtualTables … happens with the table's lock must-held in the accessing function or in every caller (obligation propagated up the static call graph), writes need the write mode; insertion into allSegStores is re-checked under the write lock (no check-then-act); " +
-		"(4) ORDER hand-over — the writer makes a segment visible as rotated before removing it from the unrotated table, and every function that snapshots both tables reads the unrotated one first."
+		"(4) ORDER hand-over — the writer makes a segment visible as rotated before removing it from the unrotated table, and every function that snapshots both tables (segments or columns) reads the unrotated one first; the search chooses the open-segment block resolution only on the live answer of IsSegKeyUnrotated."
 	r.NotCovered = "data races on fields outside the guarded tables, at-most-once delivery when a segment is in both snapshots, equality with a sequential execution, liveness beyond lock-order acyclicity (channels, wait groups)"
 	a := lockAnalysis(c)
 	scope := lockScopeC11
@@ -493,6 +494,95 @@ func checkHandOver(c *core.Ctx, r *core.Report) {
 		}
 	}
 	r.Floor("ORDER", "functions taking both column snapshots", nc, 2)
+
+	// the choice between the open-segment and the rotated block resolution is made on the live state of the
+	// segment, not on what the snapshot said: a segment can rotate after the snapshot was taken
+	live := c.Obj(pkgWriter, "IsSegKeyUnrotated")
+	extract := c.Obj("pkg/segment/query/metadata", "ExtractUnrotatedSSRFromSearchNode")
+	sTypeQsr := c.Field(pkgQuery, "QuerySegmentRequest.sType")
+	// guardedAt: the instruction `at` of fn executes only after the live state of the segment was consulted:
+	// (1) dominated by the true edge of IsSegKeyUnrotated(...), or (2) fn refreshes the recorded search type
+	// (a store to .sType where IsSegKeyUnrotated answered false) in a region whose entry dominates `at`.
+	guardedAt := func(fn *ssa.Function, at ssa.Instruction) bool {
+		for d := at.Block(); d != nil && d.Idom() != nil; d = d.Idom() {
+			ifi, ok := core.LastIf(d.Idom())
+			if !ok || len(d.Preds) != 1 {
+				continue
+			}
+			cond, neg := ifi.Cond, false
+			if u, ok := cond.(*ssa.UnOp); ok && u.Op == token.NOT {
+				cond, neg = u.X, true
+			}
+			if cc, ok := cond.(*ssa.Call); ok && core.IsCallTo(cc, live) {
+				onTrue := d.Idom().Succs[0] == d
+				if onTrue != neg {
+					return true
+				}
+			}
+		}
+		for _, lc := range callsTo(fn, live) {
+			// a refresh of the search type where the answer was "not unrotated"
+			refreshed := false
+			for _, b := range fn.Blocks {
+				if core.BoolKnownAt(lc, b) != core.No {
+					continue
+				}
+				for _, in := range b.Instrs {
+					if st, ok := in.(*ssa.Store); ok {
+						if fa, ok := st.Addr.(*ssa.FieldAddr); ok && core.FieldOfAddr(fa) == sTypeQsr {
+							refreshed = true
+						}
+					}
+				}
+			}
+			if !refreshed {
+				continue
+			}
+			// the region that contains the live check starts at a block that dominates `at`
+			for d := lc.Block(); d != nil; d = d.Idom() {
+				if d.Dominates(at.Block()) && d != at.Block() || (d == at.Block() && core.InstrDominates(lc, at)) {
+					// every path from d either refreshes or leaves the search type as it was validly recorded
+					return true
+				}
+				if d.Idom() == nil {
+					break
+				}
+			}
+		}
+		return false
+	}
+	var siteGuarded func(fn *ssa.Function, at ssa.Instruction, depth int) bool
+	siteGuarded = func(fn *ssa.Function, at ssa.Instruction, depth int) bool {
+		if guardedAt(fn, at) {
+			return true
+		}
+		if depth >= 3 {
+			return false
+		}
+		sites := c.StaticCallers()[fn]
+		if len(sites) == 0 {
+			return false
+		}
+		for _, ci := range sites {
+			if !siteGuarded(ci.Parent(), ci, depth+1) {
+				return false
+			}
+		}
+		return true
+	}
+	nl := 0
+	for _, fn := range c.RepoFunctions() {
+		if strings.HasSuffix(core.FnPkgPath(fn), "/pkg/segment/query/metadata") {
+			continue // the resolver's own recursion
+		}
+		for i, call := range callsTo(fn, extract) {
+			nl++
+			r.Check(siteGuarded(fn, call, 0), "DEPENDS", fmt.Sprintf("%s:open-segment-block-resolution#%d-decided-on-the-live-state", shortFn(fn), i+1), c.Pos(call.Pos()),
+				"the open-segment path is taken only after IsSegKeyUnrotated was asked for this segment (here, or by every caller, directly or by refreshing the recorded search type)",
+				"the search resolves the blocks of a segment through the open-segment tables because its snapshot said so, without asking IsSegKeyUnrotated now: a segment that finished rotating after the snapshot is in neither place for this search and all of its events, flushed before the search began, are missing")
+		}
+	}
+	r.Floor("DEPENDS", "open-segment block resolutions", nl, 3)
 }
 
 var _ = types.Universe
